@@ -98,7 +98,10 @@ def _lens_cases(ctx, nl, rays_per):
         hist['mirrors'] += sum(1 for s in surfs if s['refl'])
         for ri in range(rays_per):
             rr, th = rng.choice([0.2, 0.6, 0.95, 1.0]), rng.uniform(0, 6.283)
-            r = tracecorr.impl_trace(o, 0.0, rng.choice([0.0, 1.0, rng.uniform(-1, 1)]), rr * math.cos(th), rr * math.sin(th), wv)
+            Hy = rng.choice([0.0, 1.0, rng.uniform(-1, 1)])
+            if ri == 0:
+                rr, Hy = 0.0, 0.0        # the axial ray lands exactly on every vertex (r = 0)
+            r = tracecorr.impl_trace(o, 0.0, Hy, rr * math.cos(th), rr * math.sin(th), wv)
             if r[0] == 'err':
                 hist['errors'][r[1]] = hist['errors'].get(r[1], 0) + 1
                 continue
